@@ -6,16 +6,25 @@ machine).  The rotation kernels only depend on numpy and on each other, so for C
 object is replaced by a bare namespace package whose __path__ is the real source directory; the
 sub-package cardillo.math is then imported by the normal machinery from the real files.  If
 cardillo is already imported (e.g. by another check in the same process) that module is used.
+
+A failed import (transient, e.g. resource exhaustion while scipy is loaded by cardillo.math.prox)
+is cleaned out of sys.modules before the exception is re-raised, so that the next case starts from
+a clean state and reports the real error instead of a half-initialised package.
 """
 import importlib
 import os
 import sys
 import types
 
+_OK = None
+
 
 def math():
+    global _OK
+    if _OK is not None:
+        return _OK
+    repo = os.path.abspath(os.environ.get("VERIF_REPO", "/repo"))
     if "cardillo" not in sys.modules:
-        repo = os.environ.get("VERIF_REPO", "/repo")
         pkgdir = os.path.join(repo, "cardillo")
         if not os.path.isfile(os.path.join(pkgdir, "math", "rotations.py")):
             raise RuntimeError("cardillo sources not found under " + repo)
@@ -24,9 +33,17 @@ def math():
         stub.__file__ = os.path.join(pkgdir, "__init__.py")
         stub.__verif_stub__ = True
         sys.modules["cardillo"] = stub
-    m = importlib.import_module("cardillo.math")
-    src = os.path.abspath(m.rotations.__file__)
-    repo = os.path.abspath(os.environ.get("VERIF_REPO", "/repo"))
-    if not src.startswith(repo + os.sep):
-        raise RuntimeError(f"cardillo.math loaded from {src}, expected below {repo}")
+    try:
+        m = importlib.import_module("cardillo.math")
+        rot = importlib.import_module("cardillo.math.rotations")
+        alg = importlib.import_module("cardillo.math.algebra")
+    except BaseException:
+        for k in [k for k in sys.modules if k == "cardillo.math" or k.startswith("cardillo.math.")]:
+            del sys.modules[k]
+        raise
+    for mod in (rot, alg):
+        src = os.path.abspath(mod.__file__)
+        if not src.startswith(repo + os.sep):
+            raise RuntimeError(f"{mod.__name__} loaded from {src}, expected below {repo}")
+    _OK = m
     return m
